@@ -130,6 +130,24 @@ def main(tier, seed):
         "samples": [{"case": c, "impl": i, "model": m} for c, i, m in list(zip(cases, impl, model))[:2]],
         "model_impl_disagreements": len(diffs),
     })
+    # Executor::drop, sequential: after the executor is gone every future it still owned has been dropped, schedule() is refused
+    dcases = ["%d %d %d" % (n, pl, d) for n in (0, 1, 3, 1023, 1024, 1025, 1100, 2049, 3000) for pl in (0, 1, 2) for d in (0, 1, 2, 3)]
+    dout = p_c03.run_batch(vlib.HARNESS, "cexecdrop", dcases)
+    for c, o in zip(dcases, dout):
+        ws = o.split()
+        n = int(c.split()[0])
+        if len(ws) != 4:
+            bad.append(("executor drop " + c, o, ["no result from the executor-drop run"]))
+        elif int(ws[1]) != n:
+            bad.append(("executor drop (tasks, polls until ready, dispatches before the drop): " + c, o,
+                        ["after the executor was dropped only %s of its %d futures had been dropped" % (ws[1], n)]))
+        elif ws[3] != "1":
+            bad.append(("executor drop " + c, o, ["schedule() after the executor was dropped did not fail"]))
+        elif int(ws[2]) > n:
+            bad.append(("executor drop " + c, o, ["more outputs delivered than tasks"]))
+    chk.cov["executor_drop_cases"] = {"cases": len(dcases), "rule": "n tasks in {0,1,3,1023,1024,1025,1100,2049,3000} that wake themselves and become ready after 0(never)/1/2 polls, "
+                                      "0-3 dispatches, then the executor is removed from the loop: all n futures dropped, schedule() refused"}
+    chk.cov["evaluations"] += len(dcases)
     k13 = [x for x in vlib.load_known() if x.get("id") == "F13" and x.get("status") == "known"]
     d13 = p_c03.run_batch(vlib.HARNESS, "cexec13", ["norace", "race"])
     chk.cov["executor_drop_witness"] = d13
@@ -158,6 +176,16 @@ def main(tier, seed):
 
 
 def replay(path):
+    dcases = [l.split(":", 1)[1].strip() for l in open(path) if l.startswith("executor drop (tasks")]
+    if dcases:
+        vlib.build_harness()
+        out = p_c03.run_batch(vlib.HARNESS, "cexecdrop", dcases)
+        rc = 0
+        for c, o in zip(dcases, out):
+            print(c, "->", o)
+            if len(o.split()) != 4 or o.split()[1] != c.split()[0] or o.split()[3] != "1":
+                rc = 1
+        return rc
     cases = [l.strip() for l in open(path) if l.count("|") == 3]
     vlib.build_harness()
     vlib.build_model()
